@@ -47,6 +47,12 @@ var engineChecks = map[string]bool{
 	"C10": true, "C11": true, "C12": true, "C13": true, "C15": true, "C16": true, "C19": true,
 }
 
+// raceChecks get the free-running -race pass after their exhaustive part.
+var raceChecks = map[string]bool{
+	"C01": true, "C02": true, "C03": true, "C04": true, "C05": true, "C06": true, "C07": true,
+	"C10": true, "C11": true, "C12": true, "C13": true, "C15": true, "C16": true, "C19": true,
+}
+
 // seqChecks have a sequential-enumeration part (for C11 and C13 in addition to the engine part).
 var seqChecks = map[string]bool{
 	"C08": true, "C09": true, "C11": true, "C13": true, "C14": true, "C17": true, "C18": true,
@@ -173,6 +179,11 @@ func doCheck(id, tier string) int {
 			return 2
 		}
 		worst = code
+		if worst == 0 && raceChecks[id] {
+			if rc := racePass(id, tier, scratch); rc > worst {
+				worst = rc
+			}
+		}
 	}
 	if seqChecks[id] && worst != 2 {
 		bin, err := buildSeq(scratch)
